@@ -4,6 +4,9 @@ from core import hx, unhx
 
 LEAN_MODULE = 'QM.Props.C08'
 THEOREMS = ['Refine.C08_process_refines', 'Refine.C09_members_order_free', 'Refine.C09_members_exact', 'Refine.C10_independent',
+            'Cv.C08_image_reference', 'Cv.C08_image_reference_missing', 'Cv.C08_network_reference', 'Cv.C08_network_reference_missing',
+            'Cv.C08_pod_reference', 'Cv.C08_pod_reference_missing', 'Cv.C08_pod_reference_not_a_pod', 'Cv.C08_volume_name_consistent',
+            'Cv.C08_network_publishes_what_it_creates', 'Cv.C08_image_publishes_what_it_creates',
             'Cv.C08_process_concrete', 'Cv.C08_processUnits', 'Cv.C08_order_irrelevant', 'Cv.sys_local', 'Cv.convOut_congr', 'Cv.linkOf_congr', 'Cv.reads_lower', 'Cv.link_higher',
             'Cv.C08_priorities', 'Cv.C08_service_suffixes', 'Conform.sorting_priority', 'Conform.service_suffix']
 ASSUMPTIONS = [
